@@ -400,10 +400,19 @@ def r4(ctx):
                   "the returned gradient lists are the ones the walk filled, unchanged",
                   "%s changes a gradient list after the backward walk (%s): the gradients no longer line up with the layers they belong to"
                   % (fpath, e6.show(tampered[0], 2)[:100] if tampered else (later[0][1] if later else "")))
+        if FBS is not None:
+            # the block records are consumed last-in-first-out against the reversed walk: the list popped inside the walk is the parameter as it
+            # was handed over by Network::forward (not reordered, trimmed or rebuilt before the walk starts)
+            ent = [v_[3] for v_ in P.env.values() if isinstance(v_, tuple) and v_[0] == "loopout" and v_[1] == FBS and v_[2] == walk_l and len(v_) > 3]
+            oke = bool(ent) and all(v_ == ("p", FBS) for v_ in ent)
+            ctx.check("R01.4", short_name + ":block-records-consumed-as-recorded", oke, "block-records-at-walk-entry:" + _re.sub(r"#\w+", "", short(e6.show(ent[0], 2) if ent else "?", 60)), where,
+                      "feedbacks (as received) is popped once per block, from the back, while the layers are walked back to front",
+                      "%s walks the layers backwards popping block records from %s instead of the record list as Network::forward filled it: "
+                      "with two or more feedback blocks each block is differentiated with another block's intermediates" % (fpath, e6.show(ent[0], 2)[:100] if ent else "?"))
         ctx.check("R01.4", short_name + ":result-routing", bool(routing) and all(x[0] for x in routing), "result-components-routed-wrongly:" + short(next((x[1] for x in routing if not x[0]), ""), 80), wloc,
                   "(dX, dW, db) -> gradients / weight / bias lists")
     ctx.guard("R01.4", "record-layout", forward_record_layout, ctx, "R01.4")
-    ctx.floor("R01.4", 18 + 3 + 1 + 2, "two walks: walk form, idx, input, output, arms, routing; record layout of Network::forward")
+    ctx.floor("R01.4", 18 + 3 + 1 + 2 + 1, "two walks: walk form, idx, input, output, arms, routing; record layout of Network::forward")
 
 
 def forward_record_layout(ctx, rule):
